@@ -247,6 +247,7 @@ def thorough():
 def _shard_entry(args):
     modname, subname, n, seed, tier, excluded, shard, nshards, shrink_budget = args
     CURRENT_TIER[0] = tier
+    cov = _cov_start() if os.environ.get('VERIF_COV') else None
     try:
         import importlib
         mod = importlib.import_module(modname)
@@ -261,6 +262,35 @@ def _shard_entry(args):
     except BaseException as e:
         return Ctx().export(), None, 'shard crashed: ' + ''.join(
             traceback.format_exception(type(e), e, e.__traceback__))[-3000:]
+    finally:
+        if cov is not None:
+            _cov_dump(cov, '%s-%s-%d' % (modname.split('.')[-1], subname, shard))
+
+
+def _cov_start():
+    """developer aid (VERIF_COV=<dir>): which lines of glom does a check execute?  sys.monitoring, lines reported once"""
+    mon = sys.monitoring
+    hits = set()
+    root = os.path.join(boot.REPO, 'glom') + os.sep
+
+    def on_line(code, line):
+        if code.co_filename.startswith(root) and os.sep + 'test' + os.sep not in code.co_filename:
+            hits.add((code.co_filename[len(root):], line))
+        return mon.DISABLE
+    try:
+        mon.use_tool_id(3, 'verifcov')
+    except ValueError:
+        pass
+    mon.register_callback(3, mon.events.LINE, on_line)
+    mon.set_events(3, mon.events.LINE)
+    return hits
+
+
+def _cov_dump(hits, tag):
+    d = os.environ['VERIF_COV']
+    os.makedirs(d, exist_ok=True)
+    with open(os.path.join(d, tag + '.json'), 'w') as f:
+        json.dump(sorted(hits), f)
 
 
 def _merge(exports):
